@@ -357,10 +357,19 @@ func (r *rewriter) yields(n ast.Node, group string) {
 		}
 		return out
 	}
+	skip := map[*ast.BlockStmt]bool{} // bodies of switch/select hold clauses, not statements
 	ast.Inspect(n, func(n ast.Node) bool {
 		switch x := n.(type) {
+		case *ast.SwitchStmt:
+			skip[x.Body] = true
+		case *ast.TypeSwitchStmt:
+			skip[x.Body] = true
+		case *ast.SelectStmt:
+			skip[x.Body] = true
 		case *ast.BlockStmt:
-			x.List = ins(x.List)
+			if !skip[x] {
+				x.List = ins(x.List)
+			}
 		case *ast.CaseClause:
 			x.Body = ins(x.Body)
 		case *ast.CommClause:
